@@ -7,6 +7,7 @@ dataflow rules (sibling facts, who-writes-the-array, swap shape) - no execution 
 import os
 import sys
 import time
+from irlib import keep_all_but_new_helpers
 from concurrent.futures import ProcessPoolExecutor
 import multiprocessing
 
@@ -35,7 +36,7 @@ ALL_BASES = [0] + list(range(2, 37))
 
 
 def scan_unit(repo, rel):
-    return compile_ir(os.path.join(repo, rel), repo, NOCTYPE, lang='c')
+    return compile_ir(os.path.join(repo, rel), repo, NOCTYPE, lang='c', inline=keep_all_but_new_helpers())
 
 
 LLP64_INC = os.path.join(WIT, 'w_c11_llp64')
@@ -49,7 +50,8 @@ def llp64_unit(repo, rel):
         raise AnalysisBroken('witness/w_c11_llp64 missing')
     flags = ['--target=x86_64-w64-windows-gnu', '-ffreestanding', '-nostdlibinc', '-isystem', LLP64_INC,
              '-fno-builtin', '-D__weak_alias(a,b)=']
-    return compile_ir(os.path.join(repo, rel), repo, flags, lang='c', out_name='llp64_' + rel.replace('/', '_'))
+    return compile_ir(os.path.join(repo, rel), repo, flags, lang='c', out_name='llp64_' + rel.replace('/', '_'),
+                      inline=keep_all_but_new_helpers())
 
 
 def ret_type(f):
